@@ -1,7 +1,7 @@
 (* C17 — One live message queue per peer, delivering in queued order.
    Only statements; proofs are in GS.PeerMgrProofs. *)
 From Coq Require Import List NArith Bool.
-From GS Require Import Base PeerMgr PeerMgrProofs.
+From GS Require Import Base PeerMgr PeerMgrProofs PeerMgrConc PeerMgrConcProofs.
 Import ListNotations.
 Open Scope N_scope.
 
@@ -43,6 +43,34 @@ Theorem C17_get_process : forall ls p,
     (aget p (table s) = Some (rc, q) /\ s' = s \/ aget p (table s) = None /\ is_live s' q = true).
 Proof. exact c17_get_process. Qed.
 Print Assumptions C17_get_process.
+
+(* Concurrent senders.  GetProcess is double-checked in the code (read-locked lookup, then a
+   write-locked getOrCreate); a group GConc p k w is k concurrent GetProcess(p) calls whose lookups all
+   precede every write-locked section, with at most one other call w waiting for the write lock.
+   Every group run is a run of the labels above (PeerMgrConcProofs.grun_prun), hence: at most one live
+   queue per peer in every state reachable with groups, *)
+Theorem C17_conc_one_live : forall gs p q1 q2,
+  let s := grun pm_new gs in
+  aget q1 (queues s) = Some (p, QLive) -> aget q2 (queues s) = Some (p, QLive) -> q1 = q2.
+Proof. exact c17_conc_one_live. Qed.
+Print Assumptions C17_conc_one_live.
+
+(* and all concurrent senders of a group are handed one and the same queue — the one the table holds
+   afterwards when the peer had none. *)
+Theorem C17_conc_same_process : forall gs p k w,
+  let s := grun pm_new gs in
+  exists q, snd (gstep s (GConc p k w)) = repeat q k /\
+    (aget p (table s) = None -> k <> O ->
+     exists rc, aget p (table (fst (gstep s (GConc p k w)))) = Some (rc, q)).
+Proof. exact c17_conc_same_process. Qed.
+Print Assumptions C17_conc_same_process.
+
+(* Non-vacuity for groups: three concurrent first sends to an unknown peer create exactly one queue;
+   the monitor rejects the observation in which two of them created a queue each. *)
+Example C17_conc_first_use :
+  gstep pm_new (GConc 7 3 None) = ({| table := [(7, (0, 0))]; queues := [(0, (7, QLive))]; next_q := 1 |}, [0; 0; 0]) /\
+  gobs_ok [7; 7] {| go_rets := [0; 1; 1]; go_table := [(7, 1)]; go_status := [0; 0] |} = false.
+Proof. vm_compute. split; reflexivity. Qed.
 
 (* Non-vacuity, and the history on which the unrepaired code failed: reconnect before the old queue
    has exited, then its late exit, then a send.  With the instance check the late exit leaves the
